@@ -42,6 +42,8 @@ impl Model {
             dif: Vec<f32>,
         }
 
+        #[cfg(cteenergymodel_verif)]
+        crate::verif_hooks::point("fshobst:entry");
         let occluders = self.collect_occluders();
 
         let mut map: BTreeMap<Uuid, ObstData> = BTreeMap::new();
@@ -49,18 +51,26 @@ impl Model {
 
         // Las tablas climáticas son de solo lectura: un pánico previo con el cerrojo tomado
         // no las deja en un estado inconsistente, así que ignoramos el envenenamiento
+        #[cfg(cteenergymodel_verif)]
+        let _verif_meta_scope = crate::verif_hooks::lock_scope(&*CLIMATEMETADATA, "CLIMATEMETADATA");
         let latitude = CLIMATEMETADATA
             .lock()
             .unwrap_or_else(|e| e.into_inner())
             .get(&self.meta.climate)
             .unwrap()
             .latitude;
+        #[cfg(cteenergymodel_verif)]
+        drop(_verif_meta_scope);
+        #[cfg(cteenergymodel_verif)]
+        let _verif_july_scope = crate::verif_hooks::lock_scope(&*JULYRADDATA, "JULYRADDATA");
         let julyraddata = JULYRADDATA.lock().unwrap_or_else(|e| e.into_inner());
         let raddata = match julyraddata.get(&self.meta.climate) {
             Some(data) => data,
             None => return fshobstmap,
         };
         for window in &self.windows {
+            #[cfg(cteenergymodel_verif)]
+            crate::verif_hooks::point("fshobst:window");
             // if window.name != "P01_E01_PE004_V" {continue};
             let window_wall = match self.get_wall(window.wall) {
                 None => continue,
